@@ -207,13 +207,59 @@ func parseMsg(toks []string) (*protoproducer.ProtoProducerMessage, bool) {
 }
 
 // fmtLines: the four outputs of one message through the real format drivers' entry points
-func fmtLines(m *protoproducer.ProtoProducerMessage) []string {
+func fmtLines(m *protoproducer.ProtoProducerMessage) []string { return fmtForms(m).lines() }
+
+// formed keeps the byte slices exactly as the Marshal functions returned them, uncopied — the way an asynchronous
+// transport (the Kafka producer takes the slice as it is) holds a formatted record while later records are being
+// formatted. The lines are rendered only when the whole datagram has been processed.
+type formed struct {
+	err             string
+	js, tx, bin, ky []byte
+	valid           string
+	want            *flowpb.FlowMessage // the message as it was when it was formatted
+}
+
+// splitVerdict: a stream of two frames read the way cmd/enricher reads it, on the bytes as they are when the
+// datagram is done, against the message as it was when it was formatted
+func (f *formed) splitVerdict() string {
+	bin := f.bin
+	split := "ok"
+	rd := bytes.NewReader(append(append([]byte{}, bin...), bin...))
+	for i := 0; i < 2; i++ {
+		var back flowpb.FlowMessage
+		if err := protodelim.UnmarshalFrom(rd, &back); err != nil {
+			split = "bad"
+			break
+		}
+		if !proto.Equal(&back, f.want) {
+			split = "bad"
+		}
+	}
+	if rd.Len() != 0 {
+		split = "bad"
+	}
+	return split
+}
+
+func (f *formed) lines() []string {
+	if f.err != "" {
+		return []string{f.err}
+	}
+	return []string{
+		"json " + canon.Hex(f.js) + " valid=" + f.valid,
+		"text " + canon.Hex(f.tx),
+		"bin " + canon.Hex(f.bin) + " split=" + f.splitVerdict(),
+		"key " + canon.Hex(f.ky),
+	}
+}
+
+func fmtForms(m *protoproducer.ProtoProducerMessage) *formed {
 	js, err1 := m.MarshalJSON()
 	tx, err2 := m.MarshalText()
 	bin, err3 := m.MarshalBinary()
 	key := m.Key()
 	if err1 != nil || err2 != nil || err3 != nil {
-		return []string{fmt.Sprintf("fmt-error json=%v text=%v bin=%v", err1, err2, err3)}
+		return &formed{err: fmt.Sprintf("fmt-error json=%v text=%v bin=%v", err1, err2, err3)}
 	}
 	valid := "0"
 	if json.Valid(js) {
@@ -224,28 +270,7 @@ func fmtLines(m *protoproducer.ProtoProducerMessage) []string {
 			valid = "0"
 		}
 	}
-	// a stream of two frames read the way cmd/enricher reads it
-	split := "ok"
-	rd := bytes.NewReader(append(append([]byte{}, bin...), bin...))
-	for i := 0; i < 2; i++ {
-		var back flowpb.FlowMessage
-		if err := protodelim.UnmarshalFrom(rd, &back); err != nil {
-			split = "bad"
-			break
-		}
-		if !proto.Equal(&back, &m.FlowMessage) {
-			split = "bad"
-		}
-	}
-	if rd.Len() != 0 {
-		split = "bad"
-	}
-	return []string{
-		"json " + canon.Hex(js) + " valid=" + valid,
-		"text " + canon.Hex(tx),
-		"bin " + canon.Hex(bin) + " split=" + split,
-		"key " + canon.Hex(key),
-	}
+	return &formed{js: js, tx: tx, bin: bin, ky: key, valid: valid, want: proto.Clone(&m.FlowMessage).(*flowpb.FlowMessage)}
 }
 
 func formatterOf(cid string) (protoproducer.FormatterMapper, error) {
